@@ -525,9 +525,13 @@ class FlatLinearOperator(ScipyLinearOperator):
             leg = self.leg
             ch_leg = npc.LegCharge.from_qflat(leg.chinfo, self.possible_charge_sectors, qconj=-leg.qconj)
             res = npc.zeros([self.leg, ch_leg], vec.dtype, labels=[self.vec_label, 'charge'])
-            res._qdata = np.repeat(np.arange(leg.block_number, dtype=np.intp), 2).reshape(leg.block_number, 2)
+            res._qdata = np.empty((leg.block_number, 2), dtype=np.intp)
             for qi in range(leg.block_number):
+                # block of `ch_leg` with the same charges as block `qi` of `leg`
+                qj = np.nonzero(np.all(self.possible_charge_sectors == leg.charges[qi], axis=1))[0][0]
+                res._qdata[qi, :] = (qi, qj)
                 res._data.append(vec[leg.get_slice(qi)].reshape((-1, 1)))
+            res._qdata_sorted = False
             res.test_sanity()
             return res
 
@@ -568,7 +572,6 @@ class FlatLinearOperator(ScipyLinearOperator):
             leg = self.leg
             for qinds, data in zip(npc_vec._qdata, npc_vec._data):
                 qi = qinds[0]
-                assert qi == qinds[1]
                 res[leg.get_slice(qi)] = data.reshape((-1,))
             return res
 
